@@ -262,6 +262,16 @@ func streamTruncate(ctx *Ctx) *Result {
 				// newlines far into the source: multi-byte entries at the very end of the dump
 				src = "#" + strings.Repeat("c", []int{240, 2290, 67830}[r.Intn(3)]) + "\n" + src + "\n"
 			}
+			if i%10 == 2 {
+				// the last newline exactly at, just below and just above every varint size boundary:
+				// its offset is the last entry of the line table, the very last bytes of the dump
+				b := []int{239, 240, 241, 2286, 2287, 2288, 67822, 67823, 67824}[r.Intn(9)]
+				body := strings.TrimRight(src, "\n\r ")
+				if !strings.Contains(body, "\"") && len(body)+2 < b {
+					src = body + " #" + strings.Repeat("p", b-len(body)-2) + "\n"
+					res.Count("lastnewline.at."+fmt.Sprint(b), 1)
+				}
+			}
 			prog, err := bcl.Parse([]byte(src), "input", bcl.OptOutput(io.Discard), bcl.OptLogger(io.Discard))
 			if err == nil {
 				dump, _ = dumpOf(prog)
